@@ -434,6 +434,17 @@ def exec_frame(I, fr):
             elif op == 'insertvalue':
                 a = val(I, fr, ins['agg']); v = val(I, fr, ins['val'])
                 a = deep_set(a, ins['idx'], v); vals[ins['id']] = a
+            elif op == 'atomicrmw':
+                p = val(I, fr, ins['ptr']); v = val(I, fr, ins['val']); old = I.load(p, ins['sz'], ins['ty']); k = ins['rmw']; bits = tybits(ins['ty'])
+                new = {'add': lambda: old + v, 'sub': lambda: old - v, 'xchg': lambda: v, 'and': lambda: old & v, 'or': lambda: old | v, 'xor': lambda: old ^ v}[k]()
+                I.store(p, mask(new, bits) if isinstance(new, int) else new, ins['sz']); vals[ins['id']] = old
+            elif op == 'cmpxchg':
+                p = val(I, fr, ins['ptr']); old = I.load(p, ins['sz'], ins['vty']); c = val(I, fr, ins['cmp'])
+                ok = 1 if old == c else 0
+                if ok: I.store(p, val(I, fr, ins['new']), ins['sz'])
+                vals[ins['id']] = [old, ok]
+            elif op == 'fence':
+                pass
             elif op == 'unreachable':
                 raise Trap('unreachable executed in ' + f['name'])
             elif op == 'landingpad' or op == 'resume':
